@@ -34,6 +34,7 @@ FLAVOUR = {
     "p": (True, True, False),
     "f": (False, True, True),
     "i": (False, False, False),
+    "d": (False, True, False, True),    # ids stable, folder deletions reported without an id (as Dropbox does)
 }
 FLAVOURS_ALL = ("oo", "po", "pp", "op", "of", "fo", "oi", "io")
 FLAVOURS_MAIN = ("oo", "po", "pp", "op", "of")
@@ -404,8 +405,10 @@ class Sim:
             self._saved_time = _vclock.install(self.clock)
         fl, fr = FLAVOUR[flavour[0]], FLAVOUR[flavour[1]]
         self.providers = (
-            MockProvider(fl[0], fl[1], filter_events=fl[2], quota=quota, hash_func=hash_funcs[0]),
-            MockProvider(fr[0], fr[1], filter_events=fr[2], quota=quota, hash_func=hash_funcs[1]),
+            MockProvider(fl[0], fl[1], filter_events=fl[2], quota=quota, hash_func=hash_funcs[0],
+                         oidless_folder_trash_events=len(fl) > 3 and fl[3]),
+            MockProvider(fr[0], fr[1], filter_events=fr[2], quota=quota, hash_func=hash_funcs[1],
+                         oidless_folder_trash_events=len(fr) > 3 and fr[3]),
         )
         self.providers[0].name += "-l"
         self.providers[1].name += "-r"
